@@ -123,7 +123,13 @@ theorem gfresh_gdflt : ∀ (t : GTy), gfresh t (gdflt t) = true
   | .flat t => by simp only [gfresh, gdflt, gflat]; exact fresh_dflt t
   | .sptr _ => by simp [gfresh, gdflt]
   | .opt _ => by simp [gfresh]
+  | .uptr _ => by simp [gfresh, gdflt]
   | .vec _ => by simp [gfresh, gdflt, gelems]
+  | .arr k t => by
+    simp only [gfresh, gdflt, gelems, List.all_eq_true]
+    intro x hx
+    rw [(List.mem_replicate.1 hx).2]
+    exact gfresh_gdflt t
   | .map _ _ _ => by simp [gfresh, gdflt, gelems]
   | .struct ts => by simp only [gfresh, gdflt, gelems]; exact gfreshs_gdflts ts
 theorem gfreshs_gdflts : ∀ (ts : List GTy), gfreshs ts (gdflts ts) = true
@@ -228,6 +234,36 @@ theorem gunpack_gpackW (ρ : Nat → Nat) (H : Nat → GVal) :
       simp only [gpackW, gopt, gunpack, List.cons_append, rdBool_boolByte]
       rw [e1]
       simp [GVal.rename]
+  | .uptr t, v, tgt, S, M, rest, h, hc, hf, hi => by
+    cases tgt <;> simp [gfresh] at hf
+    cases v <;> simp [gwt] at h
+    · refine ⟨M, ?_, by simpa [gpackW, gopt] using hi⟩
+      simp only [gpackW, gopt, gunpack]
+      rw [rdNat_le szInt 0 rest (by decide)]
+      simp [GVal.rename]
+    · rename_i x
+      simp only [GVal.cons] at hc
+      obtain ⟨M1, e1, i1⟩ := gunpack_gpackW ρ H t x (gdflt t) S M rest h hc (gfresh_gdflt t) hi
+      refine ⟨M1, ?_, by simpa [gpackW, gopt] using i1⟩
+      simp only [gpackW, gopt, gunpack, List.append_assoc]
+      rw [rdNat_le szInt 1 _ (by decide)]
+      simp only [if_true]
+      rw [e1]
+      simp [GVal.rename]
+  | .arr k t, v, tgt, S, M, rest, h, hc, hf, hi => by
+    cases v <;> simp [gwt] at h
+    rename_i vs
+    simp only [gfresh, List.all_eq_true] at hf
+    simp only [GVal.cons] at hc
+    have hcm := consList_mem H vs hc
+    obtain ⟨M1, e1, i1⟩ := gunpackN_gpackList (PInv ρ H) (gunpack ρ t) (gpackW id t) (GVal.rename ρ) (gdflt t)
+      (fun tg => gfresh t tg = true) (gfresh_gdflt t) vs
+      (fun x hx tg S M rest htg hi => gunpack_gpackW ρ H t x tg S M rest (h.2 x hx) (hcm x hx) htg hi)
+      (gelems tgt) S M rest hf hi
+    refine ⟨M1, ?_, by simpa [gpackW, gelems_list] using i1⟩
+    simp only [gpackW, gelems_list, gunpack]
+    rw [← h.1, e1]
+    simp [GVal.rename, renameList_eq_map]
   | .vec t, v, tgt, S, M, rest, h, hc, hf, hi => by
     cases v <;> simp [gwt] at h
     rename_i vs
@@ -360,6 +396,19 @@ theorem gpackW_length (wr : Nat → Nat) : ∀ (t : GTy) (S : Seen) (v : GVal), 
       have ih := gpackW_length wr t S x h
       simp only [gpackW, gsize, gopt, List.length_cons, szBool]
       exact ⟨by rw [ih.1]; omega, ih.2⟩
+  | .uptr t, S, v, h => by
+    cases v <;> simp [gwt] at h
+    · simp [gpackW, gsize, gopt, le_length]
+    · rename_i x
+      have ih := gpackW_length wr t S x h
+      simp only [gpackW, gsize, gopt, List.length_append, le_length]
+      exact ⟨by rw [ih.1], ih.2⟩
+  | .arr k t, S, v, h => by
+    cases v <;> simp [gwt] at h
+    rename_i vs
+    have hl := gpackList_length (gpackW wr t) (gsize t) vs (fun x hx S => gpackW_length wr t S x (h.2 x hx)) S
+    simp only [gpackW, gsize, gelems_list]
+    exact hl
   | .vec t, S, v, h => by
     cases v <;> simp [gwt] at h
     rename_i vs
@@ -477,6 +526,19 @@ theorem gpackW_rename (ρ : Nat → Nat) (hρ : ∀ a b, ρ a = ρ b → a = b) 
     · rename_i x
       simp only [GVal.rename, gpackW, gopt]
       rw [gpackW_rename ρ hρ h0 t S x h]
+  | .uptr t, S, v, h => by
+    cases v <;> simp [gwt] at h
+    · simp [GVal.rename, gpackW, gopt]
+    · rename_i x
+      simp only [GVal.rename, gpackW, gopt]
+      rw [gpackW_rename ρ hρ h0 t S x h]
+  | .arr k t, S, v, h => by
+    cases v <;> simp [gwt] at h
+    rename_i vs
+    have hl := gpackList_rename ρ (gpackW id t) (gpackW ρ t) vs
+      (fun x hx S => gpackW_rename ρ hρ h0 t S x (h.2 x hx)) S
+    simp only [GVal.rename, renameList_eq_map, gpackW, gelems_list]
+    rw [hl]
   | .vec t, S, v, h => by
     cases v <;> simp [gwt] at h
     rename_i vs
